@@ -532,8 +532,24 @@ pub fn structural_tags(e: &crate::Expr) -> Vec<String> {
                 }
             }
             Group(c) => walk(c, in_atomic_scope, in_lookbehind, tags),
-            Repeat { child, .. } => walk(child, in_atomic_scope, in_lookbehind, tags),
+            Repeat { child, hi, .. } => {
+                if *hi == 0 && contains_group(child) {
+                    add("capture-group-under-zero-repeat");
+                }
+                walk(child, in_atomic_scope, in_lookbehind, tags)
+            }
             _ => {}
+        }
+    }
+    fn contains_group(e: &crate::Expr) -> bool {
+        use crate::Expr::*;
+        match e {
+            Group(_) => true,
+            Concat(v) | Alt(v) => v.iter().any(contains_group),
+            LookAround(c, _) | AtomicGroup(c) => contains_group(c),
+            Repeat { child, .. } => contains_group(child),
+            Conditional { condition, true_branch, false_branch } => contains_group(condition) || contains_group(true_branch) || contains_group(false_branch),
+            _ => false,
         }
     }
     let mut tags = Vec::new();
@@ -562,7 +578,7 @@ pub fn process(cfg: &RunCfg, item: &Item) -> PatReport {
 
 fn process_inner(cfg: &RunCfg, item: &Item, rep: &mut PatReport) {
     match cfg.prop.as_str() {
-        "C01" | "C02" | "C05" | "C15" => process_search(cfg, item, rep),
+        "C01" | "C02" | "C05" | "C15" | "XGEN" => process_search(cfg, item, rep),
         "C03" | "C14" | "C19" => crate::props2::process_pair(cfg, item, rep),
         "C07" => crate::props2::process_limits(cfg, item, rep),
         "C20" => crate::props2::process_state(cfg, item, rep),
@@ -597,8 +613,35 @@ fn process_search(cfg: &RunCfg, item: &Item, rep: &mut PatReport) {
     };
     rep.insn_kinds = b.insn_kinds;
     rep.fancy = b.fancy;
-    rep.tags = structural_tags(&tree.expr);
-    let rp = refsem::build(&tree.expr);
+    // a pattern printed from a generated tree: the parser must rebuild exactly that tree, and
+    // the reference runs on the generated tree (it must not inherit the parser's mistakes)
+    let reference_tree: &crate::Expr = match &item.expected {
+        Some(e) => {
+            if **e != tree.expr {
+                rep.candidates.push(Cand {
+                    prop: cfg.prop.clone(),
+                    what: "the parser builds a different expression tree than the one the pattern was printed from".to_string(),
+                    op: "parse_debug".to_string(),
+                    pattern: item.pattern.clone(),
+                    casei: false,
+                    limit: None,
+                    text: Vec::new(),
+                    pos: 0,
+                    arg: 0,
+                    observed: std::format!("{:?}", tree.expr),
+                    expected: std::format!("{:?}", e),
+                });
+                return;
+            }
+            &**e
+        }
+        None => &tree.expr,
+    };
+    if cfg.prop == "XGEN" {
+        return;
+    }
+    rep.tags = structural_tags(reference_tree);
+    let rp = refsem::build(reference_tree);
     if let Some(u) = &rp.unsupported {
         rep.status = std::format!("skipped:{}", u);
         return;
@@ -647,6 +690,7 @@ fn feats_for(prop: &str) -> u32 {
     match prop {
         "C01" | "C02" => corpus::FEATS_C01,
         "C15" => corpus::FEATS_C01 | corpus::F_COND | corpus::F_NAMED,
+        "XGEN" => corpus::FEATS_C01 | corpus::F_COND | corpus::F_CASE,
         "C05" => corpus::FEATS_ALL,
         _ => corpus::FEATS_C01,
     }
@@ -677,6 +721,23 @@ pub fn work_list(cfg: &RunCfg) -> WorkList {
         fixed.push(Item::new(w, "alt-order"));
     }
     if cfg.prop == "C15" {
+        for (e, s) in crate::exprgen::conditional_families() {
+            fixed.push(Item::from_tree(e, &s, "conditional-branches-tree"));
+        }
+        // an else part with three and more alternatives, in every order
+        let words = ["a", "ab", "abc", "b"];
+        for x in words.iter() {
+            for y in words.iter() {
+                for z in words.iter() {
+                    if x == y || y == z || x == z {
+                        continue;
+                    }
+                    fixed.push(Item::new(&std::format!("(c)?(?(1)b|{}|{}|{})", x, y, z), "conditional-branches"));
+                    fixed.push(Item::new(&std::format!("(?<n>c)?(?(<n>)b|({})|({})|({}))c?", x, y, z), "conditional-branches"));
+                    fixed.push(Item::new(&std::format!("(?(c)cb|{}|{}|{}|b)", x, y, z), "conditional-branches"));
+                }
+            }
+        }
         for c in ["(?(a)X|c)b", "(?(a)c|X)b", "(b)?(?(1)X|c)c"].iter() {
             for w in corpus::alt_order(false).iter().step_by(3) {
                 fixed.push(Item::new(&c.replace("X", &std::format!("(?:{})", w)), "alt-order-in-conditional"));
@@ -706,6 +767,14 @@ pub fn work_list(cfg: &RunCfg) -> WorkList {
 }
 
 pub fn random_item(cfg: &RunCfg, w: &WorkList, rng: &mut Rng, k: usize) -> Item {
+    if matches!(cfg.prop.as_str(), "C01" | "C02" | "C15" | "XGEN") && (k % 5 < 2 || cfg.prop == "XGEN") {
+        // two fifths of the random part are generated as trees (parser checked against intent)
+        for _ in 0..10 {
+            if let Some((e, s)) = crate::exprgen::random(rng, w.feats, w.max_depth) {
+                return Item::from_tree(e, &s, "random-tree");
+            }
+        }
+    }
     if let Some(it) = crate::props2::random_item(cfg, w, rng, k) {
         return it;
     }
